@@ -82,11 +82,22 @@ class C06(Prop):
 
     def oracle(self, name, ops, go):
         out = []
-        for cops, cgo in cases(ops, go):
+        # the proved model's answers on the same ops: the reference for PID curves (the clamped PID term scaled to 255 is
+        # a function of the whole evaluation history; recomputing it here would only re-implement the model)
+        lean = getattr(self, "lean_out", None) or go
+        lean_cases = [lc for _, lc in cases(ops, lean)]
+        for ci, (cops, cgo) in enumerate(cases(ops, go)):
+            clean = lean_cases[ci] if ci < len(lean_cases) else cgo
             cfgs, sens, vals = {}, {}, {}
             malformed = False
             for i, (op, g) in enumerate(zip(cops, cgo)):
                 a = kv(op)
+                if (op.startswith("cv.eval ") and not malformed and cfgs.get(a.get("id"), {}).get("kind") == "pid" and g.startswith("i")
+                        and i < len(clean) and clean[i].startswith("i") and clean[i].split()[0] != g.split()[0]):
+                    out.append(viol(f"PID curve {a['id']} = {g.split()[0][1:]}, the clamped PID term scaled to 255 for this evaluation history is "
+                                    f"{clean[i].split()[0][1:]} (reference: the proved model on the same operations)", cops, cgo, upto=i,
+                                    detail={"kind": "pid", "vs_model": True}))
+                    break
                 if op.startswith("cv.add"):
                     cfgs[a["id"]] = a
                     if a["kind"] == "function" and (a.get("members", "-") == "-" or a.get("type") not in streams.FN_TYPES or "missing" in a.get("members", "")):
